@@ -163,20 +163,19 @@ def r03_2(ctx):
         ctx.require(item_dom.accepted == IntSet.range(0, 127) and item_dom.type_test is not None,
                     'R03.2', 'domain(data[i])', ctx.where(item_fn), f'data items accepted: {item_dom.accepted}',
                     construct=f'{item_fn.qname}::domain(data)')
-    # check_time: Real type test raising TypeError
+    # check_time: real numbers pass, anything else - text that looks like a number included - is a TypeError (by execution)
     ref = table.get('time')
     if isinstance(ref, FuncRef):
         fn = ctx.fn(ref.info)
-        ok = False
-        for p in enumerate_paths(fn.node):
-            ctx.paths += 1
-            if p.status == 'raise' and astq.exc_name_of(p.exit_node()) == 'TypeError':
-                for c, pol in p.conds():
-                    txt = unparse(c)
-                    if 'isinstance' in txt and 'Real' in txt and ((txt.startswith('not ') and pol) or (not txt.startswith('not ') and not pol)):
-                        ok = True
-        ctx.require(ok, 'R03.2', 'type-test(time)', ctx.where(fn), 'time is not required to be a Real number (TypeError)',
-                    construct=f'{fn.qname}::type(time)')
+        for probe, want in ((0, 'return'), (3, 'return'), (1.5, 'return'), (-2.5, 'return'), (True, 'return'), (10 ** 20, 'return'),
+                            ('1.5', 'TypeError'), ('7', 'TypeError'), ('x', 'TypeError'), (None, 'TypeError'), ((1,), 'TypeError'), (1j, 'TypeError')):
+            ai_ = _AI(ctx.f)
+            outs = ai_.explore(lambda: ai_.apply(ref, [probe], {}, None))
+            ok = bool(outs) and all((o_.kind == 'return') if want == 'return' else (o_.kind == 'raise' and o_.exc == want) for o_ in outs)
+            ctx.require(ok, 'R03.2', f'type-test(time={probe!r})', ctx.where(fn),
+                        f'the check of time ends {outs} for {probe!r}; ' + ('a real number is a valid time' if want == 'return' else
+                                                                           'a time that is not a real number must raise TypeError'),
+                        construct=f'{fn.qname}::type(time)')
     # check_type
     ref = table.get('type')
     if isinstance(ref, FuncRef):
@@ -556,7 +555,11 @@ def r03_5(ctx):
     ctx.fn(ia)
     ai, table = _logging_interp(ctx)
     marker = AList([SeqVar('M_other', 1 << 20)], 'list')
-    outs = ai.explore(lambda: ai.call_function(ia, [AList([SeqVar('OLD', 127)], 'tuple'), marker], {}))
+    def thunk_ia():
+        me = AList([SeqVar('OLD', 127)], 'tuple')
+        me.cls = sd                    # (a SysexData: type(self) is that class)
+        return ai.call_function(ia, [me, marker], {})
+    outs = ai.explore(thunk_ia)
     q = table['data'].info.qname
     ok = [o_.kind for o_ in outs] == ['return'] and any(e[0] == 'check' and e[1] == q and _derived(e[2], marker) for e in outs[0].log)
     ctx.require(ok, 'R03.5', 'SysexData.__iadd__', ctx.where(ia), f'data += other does not check other first: {outs}',
@@ -753,5 +756,12 @@ def r03_frozen(ctx):
     ctx.borrow(c15.r15_freeze_thaw, 'R03.6')
 
 
-RULES = [('R03.6', r03_frozen), ('R03.3-illtyped', r03_illtyped_data), ('R03.2', r03_2), ('R03.2b', r03_2b), ('R03.3-setattr', r03_3_setattr), ('R03.1-init', r03_3_init),
+def r03_export(ctx):
+    """No way around the checks: what dict() hands out is a new dictionary, not the message's own attribute table - writing
+    data['note'] = 300 into the export must not put 300 into the message (shared with C14 R14.5)."""
+    from . import c14
+    ctx.borrow(c14.r14_dict, 'R03.7')
+
+
+RULES = [('R03.7', r03_export), ('R03.6', r03_frozen), ('R03.3-illtyped', r03_illtyped_data), ('R03.2', r03_2), ('R03.2b', r03_2b), ('R03.3-setattr', r03_3_setattr), ('R03.1-init', r03_3_init),
          ('R03.3-copy', r03_3_copy), ('R03.4', r03_4), ('R03.5', r03_5), ('R03.1-scan', r03_1_scan)]
